@@ -1,0 +1,148 @@
+//go:build verif
+
+// Verification contracts for cmd/proxy, property C32 (comment-only; read by /verif/govc).
+// This file contains no executable code.
+//
+// C32: "When the LFS HTTP API returns success for an upload (single request or multipart session), the object named in
+// the returned envelope exists. Its size and SHA-256 match the envelope, and the broker has acknowledged the envelope
+// record without error. Otherwise the client gets an error status."
+// Control-flow contracts: ghost flags record, at the calls themselves, that the object store reported success
+// (gstored) and that the broker's reply was checked and acknowledges the record (gacked); status 200 may be written
+// only with both set; the envelope that is encoded names the stored object with the size / digest the store path
+// computed; the multipart completion names every stored part exactly once with the session's ETags.
+// The S3 store, the broker connection and the codecs are cut out (arbitrary results = every fault).
+
+package main
+
+// ---- helpers cut out of the handlers (nothing assumed about them) ----
+//@ func (u *s3Uploader) UploadStream
+//@   modular
+//@   nullable u
+//@ func (u *s3Uploader) UploadPart
+//@   modular
+//@   nullable u
+//@ func (u *s3Uploader) CompleteMultipartUpload
+//@   modular
+//@   nullable u
+//@ func (u *s3Uploader) AbortMultipartUpload
+//@   modular
+//@   nullable u
+//@ func (m *lfsModule) connectBackend
+//@   modular
+//@   nullable m
+//@ func (m *lfsModule) forwardToBackend
+//@   modular
+//@   nullable m
+//@ func lfsEncodeProduceRequest
+//@   modular
+//@   nullable header, req
+//@ func lfsBuildRecordBatch
+//@   modular
+//@ func (m *lfsModule) lfsIsValidTopicName
+//@   modular
+//@   nullable m
+//@ func (m *lfsModule) lfsGetUploadSession
+//@   modular
+//@   nullable m
+//@ func (m *lfsModule) lfsDeleteUploadSession
+//@   modular
+//@   nullable m
+//@ func (m *lfsMetrics) IncRequests
+//@   modular
+//@   nullable m
+//@ func (m *lfsMetrics) AddUploadBytes
+//@   modular
+//@   nullable m
+//@ func (m *lfsMetrics) ObserveUploadDuration
+//@   modular
+//@   nullable m
+//@ func (t *LfsOpsTracker) EmitUploadStarted
+//@   modular
+//@   nullable t
+//@ func (t *LfsOpsTracker) EmitUploadCompleted
+//@   modular
+//@   nullable t
+//@ func (t *LfsOpsTracker) EmitUploadFailed
+//@   modular
+//@   nullable t
+//@ func lfsStatusForUploadError
+//@   modular
+//@ func parseProduceResponse
+//@   modular
+
+// ---- the broker's reply ----
+// lfsProduceAcked returns nil only for a reply that decodes, has at least one partition entry, and whose entries all
+// carry error code 0.
+//@ func lfsProduceAcked
+//@   ghost gresp *kmsg.ProduceResponse = nil
+//@   ghost gperr error = nil
+//@   at parseProduceResponse#1 after set gresp = ret0
+//@   at parseProduceResponse#1 after set gperr = ret1
+//@   ensures [C32.acked_needs_decodable_reply] result == nil ==> gperr == nil
+//@   ensures [C32.acked_means_every_partition_entry_is_success] result == nil ==> (forall i int, j int :: 0 <= i && i < len(gresp.Topics) && 0 <= j && j < len(gresp.Topics[i].Partitions) ==> gresp.Topics[i].Partitions[j].ErrorCode == 0)
+//@   ensures [C32.acked_means_some_topic_entry] result == nil ==> len(gresp.Topics) > 0
+//@   loop 1 invariant resp == gresp && -1 <= rangeindex_1 && rangeindex_1 < len(resp.Topics) && (acked != 0 ==> rangeindex_1 >= 0) && (forall i int, j int :: 0 <= i && i <= rangeindex_1 && 0 <= j && j < len(resp.Topics[i].Partitions) ==> resp.Topics[i].Partitions[j].ErrorCode == 0)
+//@   loop 2 invariant resp == gresp && -1 <= rangeindex_2 && rangeindex_2 < len(topic.Partitions) && 0 <= rangeindex_1 && rangeindex_1 < len(resp.Topics) && topic == resp.Topics[rangeindex_1] && (forall j int :: 0 <= j && j <= rangeindex_2 ==> topic.Partitions[j].ErrorCode == 0) && (forall i int, j int :: 0 <= i && i < rangeindex_1 && 0 <= j && j < len(resp.Topics[i].Partitions) ==> resp.Topics[i].Partitions[j].ErrorCode == 0)
+
+// ---- single-request upload ----
+//@ func (m *lfsModule) handleHTTPProduce
+//@   requires m.s3Uploader != nil && m.metrics != nil && m.tracker != nil
+//@   ghost gstored bool = false
+//@   ghost gacked bool = false
+//@   ghost gsent bool = false
+//@   ghost gkey string = ""
+//@   ghost gsha string = ""
+//@   ghost gsize int64 = 0
+//@   at UploadStream#1 before set gkey = arg1
+//@   at UploadStream#1 after set gstored = ret4 == nil
+//@   at UploadStream#1 after set gsha = ret0
+//@   at UploadStream#1 after set gsize = ret3
+//@   at EncodeEnvelope#1 before assert [C32.produce_envelope_describes_stored_object] gstored && arg0.Version == 1 && arg0.Key == gkey && arg0.Bucket == m.s3Bucket && arg0.Size == gsize && arg0.SHA256 == gsha
+//@   at forwardToBackend#1 after set gsent = ret1 == nil
+//@   at lfsProduceAcked#1 before assert [C32.produce_checks_the_reply_it_received] gsent && sameSlice(arg0, respBytes) && arg1 == reqHeader.APIVersion
+//@   at lfsProduceAcked#1 after set gacked = ret0 == nil
+//@   at WriteHeader#1 before assert [C32.produce_success_needs_stored_object] arg0 == 200 && gstored && env.Key == gkey && env.Size == gsize && env.SHA256 == gsha
+//@   at WriteHeader#1 before assert [C32.produce_success_needs_broker_ack] gsent && gacked
+//@   at WriteHeader#1 before stop
+
+// ---- multipart: one part ----
+//@ func (m *lfsModule) handleHTTPUploadPart
+//@   requires m.s3Uploader != nil && m.metrics != nil && m.tracker != nil && m.logger != nil
+//@   ghost gstored bool = false
+//@   ghost getag string = ""
+//@   ghost gtotal0 int64 = 0
+//@   ghost gnext0 int32 = 0
+//@   at Write#1 before assert [C32.part_hashed_is_part_received] sameSlice(arg0, body)
+//@   at UploadPart#1 before assert [C32.part_stored_is_part_received] arg1 == session.S3Key && arg2 == session.UploadID && arg3 == partNumber && sameSlice(arg4, body) && partNumber == session.NextPart && int64(len(body)) > 0 && int64(session.TotalUploaded + int64(len(body))) <= session.SizeBytes
+//@   at UploadPart#1 after set gtotal0 = session.TotalUploaded
+//@   at UploadPart#1 after set gnext0 = session.NextPart
+//@   at UploadPart#1 after set gstored = ret1 == nil
+//@   at UploadPart#1 after set getag = ret0
+//@   at Copy#1 before assert [C32.part_replay_only_for_a_recorded_part] has(session.Parts, partNumber) && etag == session.Parts[partNumber]
+//@   at WriteHeader#1 before assert [C32.part_replay_returns_recorded_etag] arg0 == 200 && resp.ETag == etag && resp.PartNumber == partNumber && !gstored
+//@   at WriteHeader#1 before stop
+//@   at WriteHeader#2 before assert [C32.part_success_needs_stored_part] arg0 == 200 && gstored && resp.ETag == getag && resp.PartNumber == partNumber
+//@   at WriteHeader#2 before assert [C32.part_accounting] session.TotalUploaded == int64(gtotal0 + int64(len(body))) && session.NextPart == int32(gnext0 + 1) && has(session.Parts, partNumber) && session.Parts[partNumber] == getag && session.PartSizes[partNumber] == int64(len(body))
+//@   at WriteHeader#2 before stop
+
+// ---- multipart: completion ----
+//@ func (m *lfsModule) handleHTTPUploadComplete
+//@   requires m.s3Uploader != nil && m.metrics != nil && m.tracker != nil && m.logger != nil
+//@   ghost gkey string = ""
+//@   ghost gstored bool = false
+//@   ghost gacked bool = false
+//@   ghost gsent bool = false
+//@   ghost gsha string = ""
+//@   loop 1 invariant [C32.complete_lists_parts_in_order] -1 <= rangeindex && rangeindex < len(req.Parts) && len(completed) == rangeindex + 1 && cap(completed) == len(req.Parts) && int64(len(req.Parts)) == int64(session.NextPart) - 1 && session.TotalUploaded == session.SizeBytes
+//@   at append#1 before assert [C32.complete_part_is_the_stored_part] len(arg1) == 1 && *arg1[0].PartNumber == int32(rangeindex + 1) && has(session.Parts, int32(rangeindex + 1)) && *arg1[0].ETag == session.Parts[int32(rangeindex + 1)] && *arg1[0].ETag != ""
+//@   at CompleteMultipartUpload#1 before assert [C32.complete_names_every_stored_part] arg1 == session.S3Key && arg2 == session.UploadID && sameSlice(arg3, completed) && int64(len(arg3)) == int64(session.NextPart) - 1 && session.TotalUploaded == session.SizeBytes
+//@   at CompleteMultipartUpload#1 after set gstored = ret0 == nil
+//@   at EncodeToString#1 after set gsha = ret0
+//@   at EncodeEnvelope#1 before assert [C32.complete_envelope_describes_session_object] gstored && arg0.Version == 1 && arg0.Key == session.S3Key && arg0.Bucket == m.s3Bucket && arg0.Size == session.TotalUploaded && arg0.SHA256 == gsha
+//@   at EncodeEnvelope#1 before set gkey = arg0.Key
+//@   at forwardToBackend#1 after set gsent = ret1 == nil
+//@   at lfsProduceAcked#1 before assert [C32.complete_checks_the_reply_it_received] gsent && sameSlice(arg0, respBytes) && arg1 == reqHeader.APIVersion
+//@   at lfsProduceAcked#1 after set gacked = ret0 == nil
+//@   at WriteHeader#1 before assert [C32.complete_success_needs_stored_object] arg0 == 200 && gstored && env.Key == gkey && env.SHA256 == gsha
+//@   at WriteHeader#1 before assert [C32.complete_success_needs_broker_ack] gsent && gacked
+//@   at WriteHeader#1 before stop
